@@ -14,6 +14,7 @@ struct TrackedStats {
     // family hooks: called on every read / write of any Tracked (after the HB check)
     void (*hook_read)(const struct Tracked*, uint64_t) = nullptr;
     void (*hook_set)(const struct Tracked*, uint64_t) = nullptr;
+    void (*hook_born)(const struct Tracked*) = nullptr;
     void reset() { *this = TrackedStats(); }
 };
 inline TrackedStats& tstats() { static TrackedStats s; return s; }
@@ -28,6 +29,7 @@ struct Tracked {
     void born() {
         canary = ALIVE; serial = tstats().next_serial++; tstats().ctor++;
         if (rt().cur) { sh.w_f = me().id; sh.w_c = me().clock.c[me().id]; }
+        if (tstats().hook_born) tstats().hook_born(this);
     }
     void alive(const char* what) const {
         check_live_addr(this, what);
